@@ -5,6 +5,7 @@ import (
 	"go/token"
 	"go/types"
 	"strings"
+	"sync"
 
 	"golang.org/x/tools/go/ssa"
 )
@@ -972,6 +973,9 @@ func headerGuards(pr *Prover, at ssa.Instruction, extra ssa.Value) map[string]bo
 
 // headerGuardsX: with strict, a condition that is not a length/accessor comparison is kept as an
 // opaque requirement (for IsMessage: anything it demands beyond what Decode establishes is a violation).
+var headerSiteCache = map[*ssa.Function][]wireSite{}
+var headerSiteMu sync.Mutex
+
 func headerGuardsX(pr *Prover, at ssa.Instruction, extra ssa.Value, strict bool) map[string]bool {
 	out := map[string]bool{}
 	addCond := func(cond ssa.Value, pol bool) {
@@ -1009,6 +1013,28 @@ func headerGuardsX(pr *Prover, at ssa.Instruction, extra ssa.Value, strict bool)
 			}
 			if c, ok := constInt(v); ok {
 				return fmt.Sprintf("%#x", c)
+			}
+			// a hand-written big-endian read (LAYOUT reports it as the UintN site it spells)
+			if in, ok := stripConvs(v).(ssa.Instruction); ok && in.Parent() != nil {
+				fn := in.Parent()
+				headerSiteMu.Lock()
+				sites, have := headerSiteCache[fn]
+				headerSiteMu.Unlock()
+				if !have {
+					sites = wireSites(newLinEval(pr.P), fn)
+					headerSiteMu.Lock()
+					headerSiteCache[fn] = sites
+					headerSiteMu.Unlock()
+				}
+				for _, ws := range sites {
+					if ws.Val != nil && ws.Val == stripConvs(v) && (ws.Kind == "Uint32" || ws.Kind == "Uint16") && ws.Hi != nil {
+						lo, okL := ws.Lo.isConst()
+						hi, okH := ws.Hi.isConst()
+						if okL && okH {
+							return fmt.Sprintf("%s(R[%d:%d])", ws.Kind, lo, hi)
+						}
+					}
+				}
 			}
 			return ""
 		}
